@@ -156,7 +156,8 @@ func runTar(ctx context.Context, opt tarOptions, args []string) error {
 		return err
 	}
 
-	index.Index.FeatureFlags |= desync.TarFeatureFlags
+	// The digest flag is set by ChunkStream according to the algorithm in use
+	index.Index.FeatureFlags |= desync.TarFeatureFlags &^ desync.CaFormatSHA512256
 
 	// See if Tar encountered an error along the way
 	if tarErr != nil {
